@@ -1,6 +1,8 @@
 import PhononModel.Gen.TetraC
 import PhononModel.Model.TetraPy
 import PhononModel.Model.TetraUtil
+import PhononModel.Model.Dos
+import PhononModel.Model.TetraMesh
 import PhononModel.Model.Wire
 open PhononModel PhononModel.Wire
 
@@ -73,6 +75,55 @@ def handle (line : String) : String :=
       let L : Fin 3 → Fin 3 → Rat := TetraPy.microzone (fun i j => pv.getD (i.1 * 3 + j.1) 0) (fun j => m.getD j.1 1)
       let l := TetraPy.diagLens L
       pure (toString (TetraPy.mainDiagonal L).1 ++ " " ++ showRats #[l 0, l 1, l 2, l 3])
+    | "smear" =>
+      -- smear normal|cauchy sigma n x...  : the smearing function in binary64 (exp, sqrt, pi of the Lean runtime)
+      let (kind, c) ← c.str?
+      let (sg, c) ← c.rat?
+      let (n, c) ← c.nat?
+      let (xs, c) ← c.rats? n
+      if !c.atEnd then none
+      let toF : Rat → Float := fun r => Float.ofInt r.num / Float.ofNat r.den
+      let pi : Float := 3.141592653589793
+      let f : Float → Float ← match kind with
+        | "normal" => some (Dos.normalDist Float.exp (Float.sqrt (2 * pi)) (toF sg))
+        | "cauchy" => some (Dos.cauchyDist pi (toF sg))
+        | _ => none
+      pure (" ".intercalate (xs.toList.map fun x => toString (f (toF x)).toBits))
+    | "fpts" =>
+      -- fpts lo hi sigma|none fmin|none fmax|none pitch|none : sigma in use, then the frequency points
+      let (lo, c) ← c.rat?
+      let (hi, c) ← c.rat?
+      let opt : Cur → Option (Option Rat × Cur) := fun c => do
+        let (t, c) ← c.str?
+        if t == "none" then pure (none, c) else
+        let r ← parseRat? t
+        pure (some r, c)
+      let (sg, c) ← opt c
+      let (fmin, c) ← opt c
+      let (fmax, c) ← opt c
+      let (pitch, c) ← opt c
+      if !c.atEnd then none
+      let (s, pts) := Dos.frequencyPoints lo hi sg fmin fmax pitch
+      pure (showRat s ++ " | " ++ " ".intercalate (pts.map showRat))
+    | "nbr" =>
+      -- nbr m0 m1 m2 ax ay az d : the 96 neighbour indices of table d around address a (C lookup)
+      let (m, c) ← c.nats? 3
+      let (a, c) ← c.ints? 3
+      let (d, c) ← c.nat?
+      if !c.atEnd then none
+      let d ← finOf? 4 d
+      if m.any (· == 0) then none
+      let mesh : Grid.V3 Nat := ⟨m[0]!, m[1]!, m[2]!⟩
+      let addr : Grid.IV := ⟨a[0]!, a[1]!, a[2]!⟩
+      pure (" ".intercalate (((TetraMesh.tableOf d).flatMap id).map fun rel => toString (TetraMesh.neighbourIndex mesh addr rel)))
+    | "gp2ir" =>
+      -- gp2ir n tab : C loop (gp2ir | ir points | weights) and the Python dictionary lookup
+      let (n, c) ← c.nat?
+      let (t, c) ← c.nats? n
+      if !c.atEnd then none
+      let st := TetraMesh.gp2irBuild t.toList
+      pure (showNats st.gp2ir.toArray ++ " | " ++ showNats st.irgp.toArray ++ " | " ++ showNats st.weights.toArray ++ " | " ++
+        showNats (TetraMesh.gp2irPy t.toList st.irgp).toArray)
     | "tables" =>
       if !c.atEnd then none
       pure (" ".intercalate (TetraC.main_diagonals.flatten.map toString) ++ " | " ++ showTable4 TetraC.db_relative_grid_address)
